@@ -152,7 +152,22 @@ func VerifyAuthRulesAtState(ctx context.Context, sp StateProvider, eventToVerify
 	if ctx.Err() != nil {
 		return fmt.Errorf("gomatrixserverlib.VerifyAuthRulesAtState: context cancelled: %w", ctx.Err())
 	}
-	if err := checkAllowedByAuthEvents(eventToVerify, roomState, nil, userIDForSender); err != nil {
+	// The event has to be allowed by the room state before it, not merely by those of its own
+	// auth_events that happen to be part of that state: an event that leaves the power levels,
+	// the join rules or a ban out of its auth_events is still subject to them.
+	stateAuthEvents, _ := NewAuthEvents(nil)
+	for _, stateEvent := range roomState {
+		if stateEvent == nil {
+			continue
+		}
+		if err := stateAuthEvents.AddEvent(stateEvent); err != nil {
+			return fmt.Errorf(
+				"gomatrixserverlib.VerifyAuthRulesAtState: event %s is not allowed at state %s : %w",
+				eventToVerify.EventID(), eventToVerify.EventID(), err,
+			)
+		}
+	}
+	if err := Allowed(eventToVerify, stateAuthEvents, userIDForSender); err != nil {
 		return fmt.Errorf(
 			"gomatrixserverlib.VerifyAuthRulesAtState: event %s is not allowed at state %s : %w",
 			eventToVerify.EventID(), eventToVerify.EventID(), err,
